@@ -117,6 +117,36 @@ class Ctx:
         return 1 if self.violations else 0
 
 
+class Recorder(Ctx):
+    """A context that only records the operation lines another property's check would run
+    (used by C01/C13 to re-use the input corpora of the functional checks)."""
+    recording = True
+
+    def __init__(self, prop, tier, seed, gen=None):
+        Ctx.__init__(self, prop, tier, seed)
+        self.recorded = []
+        self._gen = gen
+
+    def oblige(self, kind, name, ok, detail=""):
+        return ok
+
+    def violation(self, signature, what, replay, found_input=True):
+        return False
+
+
+def collect_corpus(ctx, props, tier=None, keep=None):
+    """Run the checks of `props` in recording mode; returns [(prop, suite, line)]."""
+    import importlib
+    out = []
+    for p in props:
+        rec = Recorder(p, tier or ctx.tier, ctx.seed, gen=(ctx.gen_meta, ctx.gen_data))
+        importlib.import_module("checks." + p.lower()).check(rec)
+        for suite, l in rec.recorded:
+            if keep is None or keep(l):
+                out.append((p, suite, l))
+    return out
+
+
 def load_known():
     p = os.path.join(VERIF, "known_findings.json")
     if os.path.exists(p):
@@ -297,6 +327,11 @@ def driver_path():
 import re as _re
 
 
+def clip(x, n=400):
+    x = x if isinstance(x, str) else repr(x)
+    return x if len(x) <= n else x[:n] + "...(%d chars)" % len(x)
+
+
 def split_model(m):
     a, sep, b = (m or "").partition(" ;; spec=")
     return a, (b if sep else None)
@@ -344,6 +379,9 @@ def run_suite(ctx, exe, suite, lines, what, env=None, max_report=4, canon_c=None
     import diffrun
     if not lines:
         return [], [], 0
+    if getattr(ctx, "recording", False):
+        ctx.recorded += [(suite, l) for l in lines]
+        return [None] * len(lines), [None] * len(lines), 0
     c_outs, m_outs, dis, crashes = diffrun.differential(exe, lines, env=env, canon_c=canon_c, canon_m=lambda m: split_model(m)[0])
     ctx.count(len(lines))
     specbad = 0
@@ -375,7 +413,7 @@ def run_suite(ctx, exe, suite, lines, what, env=None, max_report=4, canon_c=None
             specbad += 1
             if reported < max_report:
                 reported += 1
-                ctx.violation("%s:%s" % (suite, l), "%s: `%s` gives %r, the property requires %r" % (what, l if len(l) < 200 else l[:200] + "...", c, spec),
+                ctx.violation("%s:%s" % (suite, l), "%s: `%s` gives %r, the property requires %r" % (what, l if len(l) < 200 else l[:200] + "...", clip(c), clip(spec)),
                               {"kind": "line", "suite": suite, "line": l, "observed": c, "expected": spec, "model": mm})
     ctx.oblige("correspondence", "%s: C = model on %d lines" % (suite, len(lines)), not dis and not crashes,
                "%d disagreements, %d crashes%s" % (len(dis), len(crashes), ("; first: %r" % (dis[0][1:],)) if dis else ""))
@@ -392,6 +430,8 @@ def run_suite(ctx, exe, suite, lines, what, env=None, max_report=4, canon_c=None
 def conclude(ctx, broken):
     """Common tail of every check: broken proof obligations / correspondences without a concrete
     failing input still mean the property is no longer shown."""
+    if getattr(ctx, "recording", False):
+        return
     if broken and not ctx.violations and not ctx.known_hits:
         for name, detail in broken[:3]:
             ctx.violation("theorem:" + name, "proof obligation no longer checks: %s — %s" % (name, detail[:300]), {"broken": name, "detail": detail}, found_input=False)
@@ -404,6 +444,10 @@ def conclude(ctx, broken):
 def prepare(ctx, module, variant="asan"):
     """gen -> prove -> harness. Returns (ok, broken, data, exe) or None when the run cannot continue."""
     import diffrun
+    if getattr(ctx, "recording", False):
+        ctx.gen_meta, ctx.gen_data = ctx._gen
+        exe, err = diffrun.build_harness(variant)
+        return (True, [], ctx.gen_data, exe) if exe else None
     meta, data = run_gen(ctx)
     if meta is None:
         return None
